@@ -327,7 +327,7 @@ def run(ctx):
         n_hist = 640
     else:
         cases = static_cases(6, 10, 4, 2500, ctx.seed)
-        n_hist = 8000
+        n_hist = 30000
     ctx.note('static_cases', len(cases))
     ctx.note('excluded_from_domain',
              'Color666ToricCode with L_x != L_y (logicals cannot be built: C01 known finding)')
